@@ -220,6 +220,129 @@ theorem list_order_is_error (xs ys : List Val) (op : RelOp) (h : op ≠ .eq ∧ 
     pyRel cmpSpecs op (.list xs) (.list ys) = .error .typeError := by
   cases op <;> simp_all <;> rfl
 
+/-! ### round 2: `==` is an equivalence relation; `<=` is a total preorder whose symmetric part is `==`;
+equal values are interchangeable in every comparison -/
+
+/-- "`==` is … transitive" (with `eq_refl`, `eq_symm`: an equivalence relation on the values of one CEL type) — any
+nesting depth, any sizes: if `a == b` and `b == c` are true then `a == c` is true.  That `a` and `c` are of one type
+is not assumed: it follows from `a == b` (`sameType_of_eqSpec`). -/
+theorem eq_trans (a b c : Val) (hab : sameType a b = true) (hbc : sameType b c = true)
+    (h1 : veq a b = .ok true) (h2 : veq b c = .ok true) : veq a c = .ok true := by
+  rw [eq_is_spec a b hab] at h1
+  rw [eq_is_spec b c hbc] at h2
+  have e1 : eqSpec a b = true := by simpa using h1
+  have e2 : eqSpec b c = true := by simpa using h2
+  rw [eq_is_spec a c (sameType_of_eqSpec a b c e1 hbc), eqSpec_trans a b c e1 e2]
+/-- equal values are of the same types: `a == b` true and `b`, `c` same-typed make `a`, `c` same-typed -/
+theorem eq_preserves_type (a b c : Val) (hab : sameType a b = true) (hbc : sameType b c = true)
+    (h1 : veq a b = .ok true) : sameType a c = true := by
+  rw [eq_is_spec a b hab] at h1
+  exact sameType_of_eqSpec a b c (by simpa using h1) hbc
+example : veq (.list [.dbl (.num 0 true)]) (.list [.dbl (.num 0 false)]) = .ok true := rfl
+
+/-- `<` is asymmetric. -/
+theorem lt_asymm (a b : Val) (h : sameOrdered a b = true) (h1 : vlt a b = .ok true) : vlt b a = .ok false := by
+  rw [show vlt a b = _ from pyRel_ordered .lt a b h] at h1
+  rw [show vlt b a = _ from pyRel_ordered .lt b a (sameOrdered_symm a b h), ocmp_swap a b h]
+  cases ho : ocmp a b <;> simp_all [RelOp.holds, Ordering.swap]
+
+/-- `<=` is transitive. -/
+theorem le_trans (a b c : Val) (hab : sameOrdered a b = true) (hbc : sameOrdered b c = true)
+    (h1 : vle a b = .ok true) (h2 : vle b c = .ok true) : vle a c = .ok true := by
+  have hac := sameOrdered_trans a b c hab hbc
+  rw [show vle a b = _ from pyRel_ordered .le a b hab] at h1
+  rw [show vle b c = _ from pyRel_ordered .le b c hbc] at h2
+  rw [show vle a c = _ from pyRel_ordered .le a c hac]
+  have l1 : ocmp a b ≠ .gt := by cases ho : ocmp a b <;> simp_all [RelOp.holds]
+  have l2 : ocmp b c ≠ .gt := by cases ho : ocmp b c <;> simp_all [RelOp.holds]
+  have l3 := ocmp_le_trans a b c hab hbc l1 l2
+  cases ho : ocmp a c <;> simp_all [RelOp.holds]
+
+/-- `<=` is antisymmetric up to `==`: `a <= b` and `b <= a` force `a == b`. -/
+theorem le_antisymm (a b : Val) (h : sameOrdered a b = true)
+    (h1 : vle a b = .ok true) (h2 : vle b a = .ok true) : veq a b = .ok true := by
+  rw [show vle a b = _ from pyRel_ordered .le a b h] at h1
+  rw [show vle b a = _ from pyRel_ordered .le b a (sameOrdered_symm a b h), ocmp_swap a b h] at h2
+  rw [show veq a b = _ from pyRel_ordered .eq a b h]
+  cases ho : ocmp a b <;> simp_all [RelOp.holds, Ordering.swap]
+
+/-- `<=` is total: any two values of an ordered type are comparable. -/
+theorem le_total (a b : Val) (h : sameOrdered a b = true) : vle a b = .ok true ∨ vle b a = .ok true := by
+  rw [show vle a b = _ from pyRel_ordered .le a b h,
+    show vle b a = _ from pyRel_ordered .le b a (sameOrdered_symm a b h), ocmp_swap a b h]
+  cases ocmp a b <;> simp [RelOp.holds, Ordering.swap]
+
+/-- `!=` is exactly "`<` or `>`" on an ordered type. -/
+theorem ne_iff_lt_or_gt (a b : Val) (h : sameOrdered a b = true) :
+    vne a b = .ok true ↔ (vlt a b = .ok true ∨ vgt a b = .ok true) := by
+  rw [show vne a b = _ from pyRel_ordered .ne a b h, show vlt a b = _ from pyRel_ordered .lt a b h,
+    show vgt a b = _ from pyRel_ordered .gt a b h]
+  cases ocmp a b <;> simp [RelOp.holds]
+
+/-- Equality is coherent with the order: values that are `==` cannot be told apart by ANY of the six relations, on either
+side (what a normalising / tolerant `==` next to a raw `<` breaks). -/
+theorem eq_congr_left (op : RelOp) (a b c : Val) (hab : sameOrdered a b = true) (hbc : sameOrdered b c = true)
+    (he : veq a b = .ok true) : pyRel cmpSpecs op a c = pyRel cmpSpecs op b c := by
+  rw [show veq a b = _ from pyRel_ordered .eq a b hab] at he
+  have e : ocmp a b = .eq := by cases ho : ocmp a b <;> simp_all [RelOp.holds]
+  rw [pyRel_ordered op a c (sameOrdered_trans a b c hab hbc), pyRel_ordered op b c hbc, ocmp_congr_left a b c hab hbc e]
+theorem eq_congr_right (op : RelOp) (a b c : Val) (hab : sameOrdered a b = true) (hbc : sameOrdered b c = true)
+    (he : veq b c = .ok true) : pyRel cmpSpecs op a c = pyRel cmpSpecs op a b := by
+  rw [show veq b c = _ from pyRel_ordered .eq b c hbc] at he
+  have e : ocmp b c = .eq := by cases ho : ocmp b c <;> simp_all [RelOp.holds]
+  rw [pyRel_ordered op a c (sameOrdered_trans a b c hab hbc), pyRel_ordered op a b hab, ocmp_congr_right a b c hab hbc e]
+
+/-- "strings compare by code point", the `==` half: two strings are equal exactly when their code-point lists are (no
+normalisation form, no case folding), and likewise bytes by octets. -/
+theorem string_eq_by_code_point (s t : List Nat) : veq (.str s) (.str t) = .ok (decide (s = t)) := eq_is_spec _ _ rfl
+theorem bytes_eq_by_octet (s t : List Nat) : veq (.bytes s) (.bytes t) = .ok (decide (s = t)) := eq_is_spec _ _ rfl
+/-- U+00E9 and U+0065 U+0301 are canonically equivalent Unicode, and different CEL strings: `!=`, and ordered by code point -/
+example : veq (.str [0xE9]) (.str [0x65, 0x301]) = .ok false ∧ vgt (.str [0xE9]) (.str [0x65, 0x301]) = .ok true := ⟨rfl, rfl⟩
+
+/-- `!=` on same-typed lists: true exactly when the lengths differ or `!=` is true at some common position. -/
+theorem list_ne_pointwise (xs ys : List Val) (h : sameType (.list xs) (.list ys) = true) :
+    vne (.list xs) (.list ys) = .ok true ↔
+      xs.length ≠ ys.length ∨ ∃ i, ∃ (h1 : i < xs.length) (h2 : i < ys.length), vne xs[i] ys[i] = .ok true := by
+  have hne := ne_is_not_eq _ _ h
+  have hp := list_eq_pointwise xs ys h
+  rw [eq_is_spec _ _ h] at hne hp
+  have hst : ∀ i (h1 : i < xs.length) (h2 : i < ys.length), sameType xs[i] ys[i] = true := by
+    simp only [sameType] at h
+    clear hne hp
+    induction xs generalizing ys with
+    | nil => intro i h1; simp at h1
+    | cons x xs ih =>
+      cases ys with
+      | nil => intro i _ h2; simp at h2
+      | cons y ys =>
+        simp only [sameTypeList, Bool.and_eq_true] at h
+        intro i h1 h2
+        cases i with
+        | zero => exact h.1
+        | succ i => simpa using ih ys h.2 i (by simpa using h1) (by simpa using h2)
+  have elem : ∀ i (h1 : i < xs.length) (h2 : i < ys.length),
+      (vne xs[i] ys[i] = .ok true ↔ ¬ veq xs[i] ys[i] = .ok true) := by
+    intro i h1 h2
+    rw [ne_is_not_eq _ _ (hst i h1 h2), eq_is_spec _ _ (hst i h1 h2)]
+    cases eqSpec xs[i] ys[i] <;> simp [Except.map]
+  rw [hne]
+  have : (Except.map (fun r => !r) (Except.ok (eqSpec (Val.list xs) (Val.list ys)) : PyM Bool) = .ok true) ↔
+      ¬ ((Except.ok (eqSpec (Val.list xs) (Val.list ys)) : PyM Bool) = .ok true) := by
+    cases eqSpec (Val.list xs) (Val.list ys) <;> simp [Except.map]
+  rw [this, hp]
+  constructor
+  · intro hn
+    by_cases hl : xs.length = ys.length
+    · right
+      have : ¬ ∀ i (h1 : i < xs.length) (h2 : i < ys.length), veq xs[i] ys[i] = .ok true := fun hall => hn ⟨hl, hall⟩
+      simp only [Classical.not_forall] at this
+      obtain ⟨i, h1, h2, hv⟩ := this
+      exact ⟨i, h1, h2, (elem i h1 h2).mpr hv⟩
+    · exact Or.inl hl
+  · rintro (hl | ⟨i, h1, h2, hv⟩) ⟨hl', hall⟩
+    · exact hl hl'
+    · exact (elem i h1 h2).mp hv (hall i h1 h2)
+
 /-! ### both runners -/
 
 /-- What the caller sees: on same-typed values both runners hand back the `BoolType` carrying `eqSpec`
